@@ -29,28 +29,56 @@ class V(ViewMixin):
     const = 5
 
     def get(self):
-        LOG.append('V_get')
+        LOG.append(type(self).__name__ + '_get')
         return 'get'
 
     def put(self):
-        LOG.append('V_put')
+        LOG.append(type(self).__name__ + '_put')
         return 'put'
 
     def _hid(self):
-        LOG.append('V__hid')
+        LOG.append(type(self).__name__ + '__hid')
         return 'hid'
 
     def __magic__(self):
-        LOG.append('V___magic__')
+        LOG.append(type(self).__name__ + '___magic__')
         return 'magic'
 
 
+class W(V):
+    """a view derived from a view: exposes the inherited public callables and its own"""
+
+    def extra(self):
+        LOG.append('W_extra')
+        return 'extra'
+
+
+class Health:
+    def ping(self):
+        LOG.append('M_ping')
+        return 'ping'
+
+
+class M(ViewMixin, Health):
+    """public handlers inherited from a plain base class listed after ViewMixin"""
+    const = 6
+
+    def own(self):
+        LOG.append('M_own')
+        return 'own'
+
+    def _hid(self):
+        LOG.append('M__hid')
+        return 'hid'
+
+
+VIEWS = {'V': V, 'W': W, 'M': M}
 FN = {'f': f, 'g': g}
 
 
 def target_of(method):
     if isinstance(method, ViewMethod):
-        return 'V_' + method.method_name
+        return method.view_cls.__name__ + '_' + method.method_name
     return {f: 'f', g: 'g'}.get(method.method, 'other')
 
 
@@ -99,10 +127,11 @@ def run(scn, kind, loop):
                 regs[r].add(FN[op['fn']], name=name)
         elif op['op'] == 'view':
             vp = '.'.join(op['vp']) or None
+            cls = VIEWS[op.get('cls', 'V')]
             if r == 'd' and vp is None:
-                disp.view(V)
+                disp.view(cls)
             else:
-                regs[r].view(V, prefix=vp)
+                regs[r].view(cls, prefix=vp)
         else:
             if r == 'd':
                 disp.add_methods(regs[op['o']])
